@@ -100,9 +100,11 @@ PInner(ts, p0) ==
     [] tk.typ = "HASH_OPEN" -> PPairs(ts, q + 1, <<>>)
     [] tk.typ = "ARRAY_OPEN" -> PList(ts, q + 1, <<>>)
     [] tk.typ = "NUMBER" ->
-         IF IsP(ts, q + 1, ".") THEN              \* peek, not peekNonSpace: "1 .5" is not a decimal, "1. 5" is
-              LET f == NS(ts, q + 2) IN
-              IF ts[f].typ # "NUMBER" THEN PErr(f) ELSE POk(f + 1, NumLit(tk.val, ts[f].val))
+         (* a decimal is NUMBER "." NUMBER, white space between them or not; a "." followed by anything else is left to the
+            caller (it begins an attribute access: a.0.b) *)
+         LET d == NS(ts, q + 1)
+             f == NS(ts, d + 1) IN
+         IF IsP(ts, d, ".") /\ ts[f].typ = "NUMBER" THEN POk(f + 1, NumLit(tk.val, ts[f].val))
          ELSE POk(q + 1, NumLit(tk.val, <<>>))
     [] tk.typ = "NAME" ->
          LET nm == B2S(tk.val) IN
